@@ -168,6 +168,10 @@ for (n, tier) in [("open_valid_permissive", "thorough"), ("open_valid_strict", "
     harness(n, props=["C04", "C02", "C16", "C05", "C17"], tier=tier, timeout=7200, mem=16, fs=8192, stubs=[FMT, STUB_UP],
             what="open_internal on a valid file laid out unlike this crate's writer (FAT in sector 1, directory chain 4 -> 0 so that the physically last sector's FAT cell is 0, red nodes, unallocated slots): accepted, caches (FAT, MiniFAT, all 8 directory entries) equal what the image encodes, lookups by other letter case, metadata and the bytes of a fragmented mini stream read back",
             bounds="6-sector v3 image; mini stream contents and metadata symbolic", functions=OPEN_F, assumes=[A_SHAPE, A_UPTABLE])
+for (n, tier) in [("open_dev_all_permissive", "thorough")] + [("open_dev_strict_d%d" % k, "thorough") for k in (1, 2, 3, 5, 6, 7, 8)]:
+    harness(n, props=["C16", "C04", "C05"], tier=tier, timeout=7200, mem=16, fs=8192, stubs=[FMT, STUB_UP],
+            what="open_internal on the foreign-layout image with deviations planted in the bytes (D1 wrong FAT sector count, D2 wrong MiniFAT sector count, D3 non-zero v3 directory sector count, D5 FAT sector not marked in the FAT, D6 zero-padded FAT, D7 adjacent red nodes, D8 over-long MiniFAT): all at once are accepted by permissive open with the caches, lookups and stream bytes of the undamaged file; each alone is rejected by strict open",
+            bounds="one 6-sector v3 image; mini stream contents and metadata symbolic; deviation set concrete per instance", functions=OPEN_F, assumes=[A_SHAPE, A_UPTABLE])
 for (n, tier) in [("open_uncovered_reuse", "thorough"), ("open_uncovered_grow", "thorough")]:
     harness(n, props=["C11", "C02", "C03", "C15"], tier=tier, timeout=7200, mem=16, fs=8192, stubs=[FMT, STUB_COPY, STUB_UP],
             what="open_internal on a file with MORE sectors (131) than its single FAT sector covers (128): if accepted, the cached FAT is not longer than what the FAT sectors can record, no uncovered sector is on the free list, and allocate_sector afterwards works - reuse of a free sector below the coverage / growth by FAT sector 128 over the unowned trailing sectors, written through",
@@ -189,6 +193,9 @@ harness("mini_next_total", props=["C11", "C05", "C04"], timeout=600, mem=6, stub
 harness("mini_begin_at_128", props=["C15", "C02", "C03"], tier="quick", timeout=3600, mem=12, fs=16384, stubs=[FMT, STUB_COPY],
         what="begin_mini_chain when the cached MiniFAT holds exactly 128 entries (one v3 MiniFAT sector's worth) while the MiniFAT chain already has two sectors (trailing mini sectors were released earlier): the chain and the header count stay at two, the new cell is written through into the second MiniFAT sector, the file grows only by the mini stream's one sector",
         bounds="one layout: 20-sector v3 image, 128 one-sector mini chains", functions=MINI_F, assumes=[A_SHAPE, A_IOCOPY])
+harness("dir_validate_total", props=["C05", "C16", "C04"], tier="quick", timeout=3600, mem=12, stubs=[FMT, STUB_UP],
+        what="Directory::validate on a 4-entry directory whose left/right/child links are ANY u32 and whose colours and non-root types are arbitrary: never panics, terminates; permissive acceptance == (reachable links in range, a tree, storages/streams only, locally ordered); strict == permissive and no two adjacent reds; lookups on every accepted directory terminate and return only the named reachable slot",
+        bounds="4 directory entries, names a < b < c concrete; all link values symbolic", functions=["Directory::validate", "Directory::stream_id_for_name_chain", "path::compare_names"], assumes=[A_UPTABLE, "stream entries carry no child (DirEntry::read_from rejects that in both modes: dirent_parse_stream_*)"])
 # ---------------------------------------------------------------- C13/C02/C17: fault inside a directory entry update (h_dfault.rs)
 for (_n, _t) in [("at0", "quick"), ("at1", "thorough"), ("at2", "thorough"), ("at3", "quick"), ("at9", "thorough"), ("at20", "thorough")]:
     harness("c13_dirent_fault_" + _n, props=["C13", "C02", "C17"], tier=_t, timeout=1800, mem=8, stubs=[FMT],
